@@ -1,5 +1,6 @@
 import RbV.Spec.Occ
 import RbV.Basic.Sorted
+import RbV.Model.ShiftAnd
 /-!
 # C08 — exact matchers return exactly all occurrences
 
@@ -35,5 +36,15 @@ theorem answer_unique (p t l : List Nat) (hs : l.Pairwise (· < ·))
   intro i; rw [hm, mem_occurrences]
 
 example : occurrences [1, 2, 1] [1, 2, 1, 2, 1] = [0, 2] := by decide
+
+/-- **ShiftAnd** (mirror model of `shift_and.rs`: the `masks` loop over `u64` with the running bit shifted out
+after the 64th symbol, the `((active << 1) | 1) & masks[c]` step with 64-bit truncation, the accept test and the
+`i + 1 - m` position arithmetic) yields exactly the oracle's list, for every pattern of 1..64 symbols — in
+particular for m = 64, where bit 63 is shifted out — and every text. -/
+theorem shiftAnd_exact (p t : List Nat) (hp : 0 < p.length) (hm : p.length ≤ 64) :
+    ShiftAnd.findAll p t = occurrences p t :=
+  ShiftAnd.findAll_eq_occurrences p t hp hm
+
+example : ShiftAnd.findAll [1, 2, 1] [1, 2, 1, 2, 1] = [0, 2] := by decide
 
 end RbV.Thm.C08
